@@ -85,6 +85,14 @@ MENU_THOROUGH = [
 ]
 
 
+# thorough: parameter grids of all three classes (every min/max pair, every deadband end x max, every level subset of size <= 3)
+import itertools as _it
+
+MENU_THOROUGH += [("cont", {"min": a, "max": b}) for a in (0, 1, 6, 8) for b in (8, 16, 32, 80, float("inf")) if a <= b and ("cont", {"min": a, "max": b}) not in MENU]
+MENU_THOROUGH += [("dead", {"end": a, "max": b}) for a in (0.5, 1, 6, 8) for b in (8, 16, 32, float("inf")) if a <= b and ("dead", {"end": a, "max": b}) not in MENU]
+MENU_THOROUGH += [("fin", {"rates": list(c)}) for k in (1, 2, 3) for c in _it.combinations((6, 8, 12.5, 16, 24, 32), k)]
+
+
 def build(kind, p, sid="PS-X"):
     if kind == "cont":
         return EVSE(sid, max_rate=p["max"], min_rate=p["min"])
@@ -127,6 +135,7 @@ def offsets(tier):
     base = [0.0, 5e-4, 1e-3 - 1e-6, 1e-3 + 1e-6, 2e-3, 0.5]
     if tier == "thorough":
         base += [1e-3 - 1e-7, 1e-3 + 1e-7, 1e-3 - 1e-5, 1e-3 + 1e-5, 9e-4, 1.1e-3, 1.5e-3, 1e-2, 1e-9]
+        base += [k * 1e-4 for k in (1, 2, 3, 4, 6, 7, 8, 12, 13, 14, 16, 18, 25, 30, 50)] + [1e-3 - 3e-6, 1e-3 + 3e-6, 1e-6, 0.1, 0.25, 0.999, 1.001]
     out = []
     for o in base:
         out.append(o)
